@@ -69,6 +69,9 @@ pub fn c02(ctx: &Ctx) -> (CheckMeta, Outcome) {
     out.merge(c02_long_zero_extension(ctx));
     out.merge(all_small_images("C02", ctx));
     out.merge(crate::props::huge::read_huge("C02", ctx));
+    if crate::pool::is_primary() {
+        crate::props::writers::native_alias("C02", &mut out);
+    }
     let meta = CheckMeta {
         property: "C02".into(),
         level: "model_checking".into(),
@@ -271,6 +274,13 @@ pub fn c12_read(ctx: &Ctx) -> Outcome {
                     for n in 0..=40u16 {
                         alphabet.push(ROp::IoRead(n));
                     }
+                    // the provided methods of std::io::Read an implementor may override
+                    for n in [0u16, 1, 7, 8, 9, 15, 16, 17, 33] {
+                        alphabet.push(ROp::IoReadExact(n));
+                    }
+                    for (a, b, c) in [(3u16, 2u16, 20u16), (1, 1, 1), (0, 5, 0), (8, 8, 1), (7, 1, 9), (12, 2, 30), (0, 0, 0), (9, 0, 0)] {
+                        alphabet.push(ROp::IoReadVec(a, b, c));
+                    }
                     let imgs = images(e, nbits, seed, thorough);
                     for img in imgs.iter().take(if thorough { 4 } else { 1 }) {
                         let model = RdModel { bits: Bits::from_bytes(&img.bytes, e), e, zx: backend == "memzx", limit: nbits + 64, tables_ok: diag };
@@ -366,8 +376,12 @@ pub fn c14_read(ctx: &Ctx) -> Outcome {
     for e in End::BOTH {
         for kind in KINDS {
             for backend in ["memzx", "memstrict"] {
-                for wrapper in ["count", "dbg", "count+pre", "count+pre/seeks"] {
+                for wrapper in ["count", "dbg", "count+pre", "count+pre/seeks", "countp"] {
                     if !ctx.thorough && wrapper == "dbg" && !(kind == "buf16" || kind == "buf32" || kind == "unbuf") {
+                        continue;
+                    }
+                    // the counting wrapper with PRINT on: two reader kinds and the strict backend in the quick tier
+                    if !ctx.thorough && wrapper == "countp" && !((kind == "buf16" || kind == "unbuf") && backend == "memstrict") {
                         continue;
                     }
                     // "count+pre": the wrapper is created after 13 bits were consumed; "/seeks": seeks
